@@ -262,6 +262,60 @@ var c14Corruptions = []c14Corruption{
 		}
 		return nil
 	}},
+	{"second-self-sealed-vertex-as-root", func(w *ledger.World, r *rand.Rand, st []*accountant.Vertex) []*accountant.Vertex {
+		// hangs on nothing: zero parent hashes (one or both), so it becomes a second root of the loaded graph
+		var zero ledger.H
+		s := w.Sealers[1]
+		t := w.NewTrx(s, w.Users[1].Addr, spice.Melange{Currency: 1}, nil)
+		right := zero
+		wgt := uint64(0)
+		if r.Intn(2) == 0 && len(st) > 0 {
+			right, wgt = st[len(st)-1].Hash, st[len(st)-1].Weight+1
+		}
+		nv := ledger.ForgeVertex(s, t, zero, right, wgt, w.Now())
+		return append(st, &nv)
+	}},
+	{"second-root", func(w *ledger.World, r *rand.Rand, st []*accountant.Vertex) []*accountant.Vertex {
+		// an ordinary, validly signed vertex that names no parent (zero hashes) or whose left parent is zero
+		var zero ledger.H
+		t := w.NewTrx(w.Users[0], w.Users[1].Addr, spice.Melange{SupplementaryCurrency: 3}, nil)
+		right := zero
+		wgt := uint64(0)
+		if r.Intn(2) == 0 && len(st) > 0 {
+			right, wgt = st[len(st)-1].Hash, st[len(st)-1].Weight+1
+		}
+		nv := ledger.ForgeVertex(w.Sealers[0], t, zero, right, wgt, w.Now())
+		if r.Intn(2) == 0 {
+			return append([]*accountant.Vertex{&nv}, st...)
+		}
+		return append(st, &nv)
+	}},
+	{"same-transaction-sealed-by-two-nodes", func(w *ledger.World, r *rand.Rand, st []*accountant.Vertex) []*accountant.Vertex {
+		// a second, validly signed vertex by another sealer that wraps a transaction already in the stream, on a tip
+		i := nonGenesisIdx(w, r, st, false)
+		if i < 0 {
+			return nil
+		}
+		named := map[ledger.H]bool{}
+		for _, v := range st {
+			named[v.LeftParentHash], named[v.RightParentHash] = true, true
+		}
+		for _, v := range st {
+			if !named[v.Hash] {
+				s := w.Sealers[0]
+				if st[i].SignerPublicAddress == s.Addr {
+					s = w.Sealers[1]
+				}
+				nv := ledger.ForgeVertex(s, st[i].Transaction, v.Hash, v.Hash, v.Weight+1, w.Now())
+				if r.Intn(2) == 0 {
+					return append(st, &nv)
+				}
+				// or before the original in stream order
+				return append([]*accountant.Vertex{&nv}, st...)
+			}
+		}
+		return nil
+	}},
 	{"inner-vertex-made-self-sealed", func(w *ledger.World, r *rand.Rand, st []*accountant.Vertex) []*accountant.Vertex {
 		// a tip re-issued by its own sealer (a tip, so that no other vertex is orphaned by the new hash)
 		named := map[ledger.H]bool{}
